@@ -48,6 +48,25 @@ type scase struct {
 	// is a variable reference that expands to nothing when the archive is
 	// unpacked ("$exe" on this platform, "${nosuchvar}"); the script says g<i>
 	Spell string `json:"spell,omitempty"`
+	// StreamNames: the golden entries are named stdout, stderr, ttyout (words
+	// that as a first argument of cmp mean a stream; as the second they are files)
+	StreamNames bool `json:"stream_names,omitempty"`
+}
+
+// goldenName is the name the script uses for its i-th golden file.
+func goldenName(c scase, i int) string {
+	if c.StreamNames {
+		// never the word that is the line's own first argument: cmp refuses to
+		// compare a name with itself
+		switch {
+		case i > 0:
+			return "ttyout"
+		case c.Lines[0].Kind == "stderr":
+			return "stdout"
+		}
+		return "stderr"
+	}
+	return fmt.Sprintf("g%d", i)
 }
 
 func (c scase) String() string {
@@ -60,6 +79,9 @@ func (c scase) String() string {
 	}
 	if c.Spell != "" {
 		p = append(p, "entries-named-g<i>"+c.Spell)
+	}
+	if c.StreamNames {
+		p = append(p, "entries-named-stdout-stderr-ttyout")
 	}
 	for _, l := range c.Lines {
 		m := "mismatch"
@@ -105,7 +127,7 @@ func build(c scase) (string, bool) {
 		files = append(files, txtar.File{Name: "g0", Data: []byte("SHADOWED\n")})
 	}
 	for i, l := range c.Lines {
-		g := fmt.Sprintf("g%d", i)
+		g := goldenName(c, i)
 		golden := oldGolden
 		if l.Match {
 			if !representable(contents[l.Content]) || hasMarker(contents[l.Content]) {
@@ -235,7 +257,7 @@ func verify(dir, file, text string, c scase, res *tsh.Result, st *counters) stri
 	updates := map[string]string{}
 	unquotable := false
 	for i, l := range c.Lines {
-		g := fmt.Sprintf("g%d", i) + c.Spell
+		g := goldenName(c, i) + c.Spell
 		act := contents[l.Content]
 		equal := l.Match
 		if wantFail {
@@ -512,6 +534,13 @@ func realMain() {
 			}
 		}
 	}
+	// golden entries named like the streams
+	for _, a := range dupLines {
+		cases = append(cases, scase{Lines: []cmpLine{a}, StreamNames: true})
+		for _, b := range dupLines {
+			cases = append(cases, scase{Lines: []cmpLine{a, b}, StreamNames: true})
+		}
+	}
 	// entry names that hold a variable reference
 	for _, sp := range []string{"$exe", "${nosuchvar}"} {
 		for _, a := range dupLines {
@@ -576,7 +605,7 @@ func realMain() {
 	wg.Wait()
 	r.Set("evaluations", done)
 	r.Set("distinct_nontrivial", st.updated)
-	r.Set("rule", "every script with 1 or 2 comparison lines (thorough: 3 over a reduced alphabet) from 7 kinds (cmp stdout / stderr / file against an archive golden, the same golden through another path spelling, negated cmp, cmpenv, cmp against a file outside the archive) x 14 actual contents (empty, no final newline, marker lines, a CRLF marker line, lines that start like a marker but are none, quoted-looking, CRLF, unquotable) x golden matching or not; untouched entries before, between and after; batches of two scripts in one RunT call; archives that repeat the first golden's name; scripts ended early by stop after the comparisons; scripts that make their first comparison twice; golden entries whose archive name holds a variable reference ($exe, ${nosuchvar}) that expands to nothing. non-trivial = golden entries actually rewritten and verified, counted")
+	r.Set("rule", "every script with 1 or 2 comparison lines (thorough: 3 over a reduced alphabet) from 7 kinds (cmp stdout / stderr / file against an archive golden, the same golden through another path spelling, negated cmp, cmpenv, cmp against a file outside the archive) x 14 actual contents (empty, no final newline, marker lines, a CRLF marker line, lines that start like a marker but are none, quoted-looking, CRLF, unquotable) x golden matching or not; untouched entries before, between and after; batches of two scripts in one RunT call; archives that repeat the first golden's name; scripts ended early by stop after the comparisons; scripts that make their first comparison twice; golden entries whose archive name holds a variable reference ($exe, ${nosuchvar}) that expands to nothing; golden entries named stdout / stderr / ttyout. non-trivial = golden entries actually rewritten and verified, counted")
 	r.Set("golden_entries_rewritten_and_verified", st.updated)
 	r.Set("of_which_quoted", st.quoted)
 	r.Set("entries_verified_untouched", st.untouched)
